@@ -13,6 +13,8 @@ import Penguin.Lemmas.PairCor
 import Penguin.Lemmas.MuxLeakDrop
 import Penguin.Lemmas.MuxLeakOpen
 import Penguin.Lemmas.PairHarness
+import Penguin.Lemmas.MuxAccountCount
+import Penguin.Lemmas.MuxAccountReq
 
 namespace Penguin.C06
 open Penguin Penguin.Mux
@@ -197,6 +199,167 @@ example : x6b ≠ 0 ∧ lookup (runOps { opts := {} } pre6b).flows x6b = some (.
     (runOps { opts := {} } pre6b).opens.find? (·.req = 1) = none ∧
     (runOps { opts := {} } pre6b).srcEnded = false ∧ (runOps { opts := {} } pre6b).park = none := by decide
 example : (applyOp (runOps { opts := {} } pre6b) (.deliver (.msg (.frame (.acknowledge x6b 4))))).1.flows = [] := by decide
+
+/-! #### No leak, as a number: every slot is accounted for (`Lemmas/MuxAccount.lean`, `MuxAccountCount.lean`)
+
+The endpoint is *in service* (`Mux.Serving`) while its `Multiplexor` is held and its task runs and
+has not begun to wind down.  (Once the wind-down has begun the accounting is moot: a parked hand-over
+is abandoned and streams a `Connect` still creates are handed to nobody, but the wind-down ends by
+clearing the whole table — `C10.invalid_frame_resolves_everything`, C08; an example below shows such
+a slot.)  The model keeps no "dropped" mark on a handle (`rxOpen = false` is also what reading
+end-of-stream leaves), so the handles a history has dropped are computed from the history:
+`Mux.dropsOf`.  `Mux.liveHandles e D` counts the handles the application has obtained and not
+dropped; `parkedCount` is 1 when the receive loop is parked handing a stream to a full accept queue.
+`Requested` and `BindRequested` slots are themselves the only record of a request the peer has not
+answered: `pendingOpens` counts the `Requested` slots whose caller still waits, `cancelledAwaiting`
+those whose caller has given up (`cancelOpen`; the slot stays until the peer answers — an
+`Acknowledge`, `Reset` or `Finish` releases it, `abandoned_request_slot_released_forever`),
+`pendingBinds` the `BindRequested` slots. -/
+
+/-- Every slot has an owner: in every state an endpoint reaches while in service — any sequence of
+    application calls and deliveries, any peer — each `Established` slot `x ↦ i` of the flow table is
+    justified by something that still exists: stream `i` waits in the accept queue, or is the parked
+    hand-over, or a dropped-handle notification for id `x` is queued for the task, or the
+    application holds a handle of stream `i` that it has not dropped. -/
+theorem established_slot_has_an_owner (o : Opts) (ops : List Mux.Op) :
+    let e := runOps { opts := o } ops
+    let D := dropsOf { opts := o } ops
+    Serving e → ∀ fid i, lookup e.flows fid = some (.established i) →
+      i ∈ e.acceptq ∨ e.park = some (.accept i) ∨ fid ∈ e.droppedq ∨ ∃ h, e.handles[h]? = some i ∧ h ∉ D := by
+  intro e D hs fid i hl
+  have hd : e.doneq = [] := runOps_doneq { opts := o } ops rfl
+  rcases (reachable_accounted o ops hs).just fid i hl with h | h | h | h | h
+  · exact Or.inl h
+  · exact Or.inr (Or.inl h)
+  · rw [hd] at h; cases h
+  · exact Or.inr (Or.inr (Or.inl h))
+  · exact Or.inr (Or.inr (Or.inr h))
+
+/-- No sequence of opens and closes leaks slots: in every state an endpoint reaches while in service,
+    whatever the application and the peer have done, the flow table has no more entries than
+    handles the application still holds + streams waiting to be accepted + the parked hand-over +
+    dropped-handle notifications the task has not processed yet + open requests the peer has not
+    answered (pending, or abandoned by their caller) + bind requests the peer has not answered.
+    (The owners of distinct slots are distinct: slots have distinct ids and distinct stream objects.) -/
+theorem slots_are_accounted_for (o : Opts) (ops : List Mux.Op) :
+    let e := runOps { opts := o } ops
+    let D := dropsOf { opts := o } ops
+    Serving e →
+      e.flows.length ≤ liveHandles e D + e.acceptq.length + parkedCount e + e.droppedq.length +
+        pendingOpens e + cancelledAwaiting e + pendingBinds e :=
+  fun hs => reachable_slot_bound o ops hs
+
+/-- Arbitrarily long sequences of opens and closes leave nothing behind: in a reachable state in
+    service in which every handle the application ever obtained has been dropped, no stream waits to
+    be accepted, nothing is parked, no notification is queued and no open or bind request (pending or
+    abandoned) awaits the peer's answer, the flow table is EMPTY. -/
+theorem no_leak_when_idle (o : Opts) (ops : List Mux.Op) :
+    let e := runOps { opts := o } ops
+    let D := dropsOf { opts := o } ops
+    Serving e → (∀ h, h < e.handles.length → h ∈ D) → e.acceptq = [] → e.park = none → e.droppedq = [] →
+      awaitingOpen e = 0 → pendingBinds e = 0 → e.flows = [] := by
+  intro e D hs hh ha hp hq hr hb
+  have hbound : e.flows.length ≤ liveHandles e D + e.acceptq.length + parkedCount e + e.droppedq.length +
+      pendingOpens e + cancelledAwaiting e + pendingBinds e := reachable_slot_bound o ops hs
+  have hl : liveHandles e D = 0 := by
+    unfold liveHandles heldList
+    rw [List.length_eq_zero_iff, List.filter_eq_nil_iff]
+    intro h hm
+    simpa using hh h (List.mem_range.mp hm)
+  have hpk : parkedCount e = 0 := by unfold parkedCount; rw [hp]
+  have hr' := awaitingOpen_split e
+  have : e.flows.length = 0 := by
+    have h1 : e.acceptq.length = 0 := by rw [ha]; rfl
+    have h2 : e.droppedq.length = 0 := by rw [hq]; rfl
+    omega
+  exact List.eq_nil_of_length_eq_zero this
+
+/-! Non-vacuity of `no_leak_when_idle`: a history that opens two streams — one requested locally (the
+    id comes from the endpoint's own generator) and acknowledged by the peer, one opened by the peer
+    and accepted — holds two slots and two handles; after both handles are dropped the endpoint is in
+    service, all hypotheses hold and the table is empty. -/
+private def xo7 : Nat := ((runOps { opts := {} } [.open 1 [97] 80]).flows.map (·.1)).headD 0
+private def h7 : List Mux.Op :=
+  [.open 1 [97] 80, .deliver (.msg (.frame (.acknowledge xo7 4))), .deliver (.msg (.frame (.connect 5 4 80 []))), .accept]
+example : (runOps { opts := {} } h7).flows = [(5, .established 1), (xo7, .established 0)] ∧
+    (runOps { opts := {} } h7).handles = [0, 1] ∧ dropsOf { opts := {} } h7 = [] := by decide
+example : Serving (runOps { opts := {} } (h7 ++ [.dropStream 0, .dropStream 1])) :=
+  ⟨by decide, by decide, by decide, by decide, by decide⟩
+example : let e := runOps { opts := {} } (h7 ++ [.dropStream 0, .dropStream 1])
+    dropsOf { opts := {} } (h7 ++ [.dropStream 0, .dropStream 1]) = [0, 1] ∧ e.handles.length = 2 ∧
+    e.acceptq = [] ∧ e.park = none ∧ e.droppedq = [] ∧ awaitingOpen e = 0 ∧ pendingBinds e = 0 ∧ e.flows = [] := by
+  decide
+
+/-! The bound is tight, with every kind of owner at once (accept queue of one): a stream accepted and
+    held, one waiting in the accept queue, one parked, an open request pending, one abandoned by its
+    caller, a bind request pending — six slots, six owners. -/
+private def o8 : Mux.Opts := { acceptCap := 1, bindCap := 1 }
+private def h8 : List Mux.Op :=
+  [.deliver (.msg (.frame (.connect 5 4 80 []))), .accept, .deliver (.msg (.frame (.connect 6 4 80 []))),
+   .deliver (.msg (.frame (.connect 7 4 80 []))), .open 1 [97] 80, .open 2 [98] 81, .cancelOpen 2, .bindReq 3 .stream [] 9]
+example : Serving (runOps { opts := o8 } h8) := ⟨by decide, by decide, by decide, by decide, by decide⟩
+example : (runOps { opts := o8 } h8).flows.length = 6 ∧
+    liveHandles (runOps { opts := o8 } h8) (dropsOf { opts := o8 } h8) = 1 ∧
+    (runOps { opts := o8 } h8).acceptq.length = 1 ∧ parkedCount (runOps { opts := o8 } h8) = 1 ∧
+    (runOps { opts := o8 } h8).droppedq.length = 0 ∧ pendingOpens (runOps { opts := o8 } h8) = 1 ∧
+    cancelledAwaiting (runOps { opts := o8 } h8) = 1 ∧ pendingBinds (runOps { opts := o8 } h8) = 1 := by decide
+
+/-! Why `pendingOpens` counts slots and not entries of `opens`: request numbers are names the caller
+    of the model chooses; a history that reuses the number of a cancelled request has two `Requested`
+    slots (the abandoned one and the new one) under one pending request number. -/
+example : let e := runOps { opts := {} } [.open 1 [97] 80, .cancelOpen 1, .open 1 [97] 80]
+    e.flows.length = 2 ∧ e.opens.length = 1 ∧ pendingOpens e = 2 ∧ cancelledAwaiting e = 0 := by decide
+
+/-- Each pending call owns at most one slot: in every history in which the caller never names a new
+    open request like one whose slot is still in the table (`Mux.freshRun`; request numbers are the
+    caller's names for its `new_stream_channel` futures), the `Requested` slots whose caller still
+    waits are no more than the pending calls — so the bound holds with the number of pending calls
+    (`opens`) in place of `pendingOpens`.  (`Lemmas/MuxAccountReq.lean`: no two `Requested` slots
+    carry the same request, a request waiting for its retry has no slot; every function of the
+    endpoint model, any peer.) -/
+theorem slots_are_accounted_for_by_calls (o : Opts) (ops : List Mux.Op) (hf : freshRun { opts := o } ops = true) :
+    let e := runOps { opts := o } ops
+    let D := dropsOf { opts := o } ops
+    pendingOpens e ≤ e.opens.length ∧
+    (Serving e →
+      e.flows.length ≤ liveHandles e D + e.acceptq.length + parkedCount e + e.droppedq.length +
+        e.opens.length + cancelledAwaiting e + pendingBinds e) := by
+  intro e D
+  have hp : pendingOpens e ≤ e.opens.length := pendingOpens_le e (runOps_uq _ ops (init_uq o) rfl hf)
+  refine ⟨hp, fun hs => ?_⟩
+  have hb : e.flows.length ≤ liveHandles e D + e.acceptq.length + parkedCount e + e.droppedq.length +
+      pendingOpens e + cancelledAwaiting e + pendingBinds e := reachable_slot_bound o ops hs
+  omega
+
+/-! Non-vacuity: the history `h8` above names its requests 1, 2 (and 3 for the bind): the naming
+    discipline holds, one call is pending, and the bound with `opens.length` is tight as well. -/
+example : freshRun { opts := o8 } h8 = true := by decide
+example : (runOps { opts := o8 } h8).opens.length = 1 := by decide
+/-! … and it is what fails in the history that re-uses the number of a cancelled request. -/
+example : freshRun { opts := {} } [.open 1 [97] 80, .cancelOpen 1, .open 1 [97] 80] = false := by decide
+
+/-! Why `Serving` is assumed: after the `Multiplexor` was dropped the task winds down and waits for the
+    peer to end the connection; a `Connect` that still arrives creates a stream that is handed to
+    nobody — its slot has no owner until the wind-down finishes and clears the table. -/
+example : let e := runOps { opts := {} } [.dropMux, .deliver (.msg (.frame (.connect 9 4 80 [])))]
+    e.flows = [(9, .established 0)] ∧ e.closing = some .ok ∧ e.outClosed = true ∧ e.acceptq = [] ∧ e.park = none ∧
+    e.droppedq = [] ∧ e.handles = [] := by decide
+example : (runOps { opts := {} } [.dropMux, .deliver (.msg (.frame (.connect 9 4 80 []))), .deliver .eof]).flows = [] := by
+  decide
+
+/-- Outside service one slot kind IS orphaned (model and code, lib.rs `new_stream_channel`): a call on
+    a connection that has already ended inserts its `Requested` slot before it notices that the
+    outbound queue is closed; it returns `Closed`, and the slot stays — the task that would drain the
+    table has finished, no request owns the slot, and nothing the peer or the application does
+    removes it: the table of a finished connection grows by one entry per call (until the
+    `Multiplexor` and all of its streams are dropped and the table itself is freed).  Here: the peer
+    ends the connection, then three calls — three slots, no pending request, no handle.  (`Serving`
+    excludes this state; the bound above counts such slots under `cancelledAwaiting`.) -/
+theorem open_on_ended_connection_leaves_slot_full_fails :
+    let e := runOps { opts := {} } [.deliver .eof, .open 1 [97] 80, .open 2 [97] 80, .open 3 [97] 80]
+    e.dead = true ∧ e.flows.length = 3 ∧ e.opens = [] ∧ e.handles = [] ∧ cancelledAwaiting e = 3 ∧
+    (applyOp (runOps { opts := {} } [.deliver .eof]) (.open 1 [97] 80)).2.2 = [.openDone 1 .closed] := by
+  decide
 
 /-! #### The pair: two endpoints and the wires, every interleaving (`Model/Pair.lean`)
 
